@@ -245,7 +245,7 @@ def parts(tier):
     return out
 
 
-CHECKS = [dict(name='listener', fn=h, parts=parts, budget={'quick': 60, 'thorough': 900}, per_path_s=20)]
+CHECKS = [dict(name='listener', fn=h, parts=parts, budget={'quick': 180, 'thorough': 900}, per_path_s=20)]
 
 META = dict(
     explanation='The real PubSubManager._thread / AsyncPubSubManager._thread consumes a channel filled with tape-chosen '
